@@ -5,9 +5,11 @@ import (
 	"errors"
 	"fmt"
 	"math/rand/v2"
+	"runtime"
 	"sort"
 	"strings"
 	"sync"
+	"sync/atomic"
 	"testing/synctest"
 	"time"
 
@@ -513,6 +515,66 @@ func c16Reentry(r *ev.Run, id string, firstLen time.Duration, secondAt time.Dura
 	r.Class("re-entry-refused")
 }
 
+type c16Gate struct {
+	entered *atomic.Int32
+	release chan struct{}
+}
+
+func (g *c16Gate) MeasureClockOffset(ctx context.Context) (time.Time, time.Duration, error) {
+	g.entered.Add(1)
+	<-g.release
+	return time.Unix(1700000000, 0), 1000, nil
+}
+
+// c16Simultaneous: several collections are started on one collector at the same instant (the
+// callers meet at a spinning rendezvous). Each uses a clock that blocks until the trial is over,
+// so whichever collection is admitted stays in progress: exactly one may be admitted, every
+// other one must be refused.
+func c16Simultaneous(r *ev.Run, id string, callers, trials int) {
+	for t := 0; t < trials; t++ {
+		var rc client.ReferenceClockClient
+		var entered, refused, arrived atomic.Int32
+		release := make(chan struct{})
+		var wg sync.WaitGroup
+		for c := 0; c < callers; c++ {
+			wg.Add(1)
+			go func() {
+				defer wg.Done()
+				defer func() {
+					if p := recover(); p != nil {
+						refused.Add(1)
+					}
+				}()
+				ms := make([]measurements.Measurement, 1)
+				clk := []client.ReferenceClock{&c16Gate{entered: &entered, release: release}}
+				arrived.Add(1)
+				for arrived.Load() < int32(callers) {
+					runtime.Gosched()
+				}
+				rc.MeasureClockOffsets(context.Background(), clk, ms)
+			}()
+		}
+		deadline := time.Now().Add(20 * time.Second)
+		for entered.Load()+refused.Load() < int32(callers) && time.Now().Before(deadline) {
+			runtime.Gosched()
+		}
+		e, f := entered.Load(), refused.Load()
+		close(release)
+		wg.Wait()
+		r.Eval(1)
+		if e+f < int32(callers) {
+			r.Inconclusive("simultaneous-start trial did not settle within 20 s")
+			return
+		}
+		if e != 1 {
+			r.Violation("MeasureClockOffsets|wrong-value:second collection while one is in progress not refused|collections started at the same instant", id,
+				map[string]any{"callers": callers, "admitted": e, "refused": f, "trial": t})
+			return
+		}
+	}
+	r.Class(fmt.Sprintf("re-entry-refused(simultaneous starts, %d callers)", callers))
+}
+
 func init() {
 	register("C16", "fault_enumeration", func(r *ev.Run) {
 		const D = int64(1000000) // 1 ms virtual deadline
@@ -632,6 +694,11 @@ func init() {
 				r.Sample(map[string]any{"case": ids[exhaustive+3], "spec": specs[exhaustive+3], "observed": c16RunOne(specs[exhaustive+3])})
 			}
 		}
+		if r.Only() == "" || strings.HasPrefix(r.Only(), "sim") {
+			for _, callers := range []int{2, 4, 8} {
+				c16Simultaneous(r, fmt.Sprintf("sim%d", callers), callers, r.Pick(1500, 60000))
+			}
+		}
 		r.CollectRaces(false, "core/client")
 		r.Set("exhaustive_patterns", exhaustive)
 		r.Set("exhaustive_subspaces", []string{fmt.Sprintf("all (completion time in {0,1ns,D-1,D,D+1,blocked until cancelled}) x (success,error) patterns for n <= %d clocks", maxN)})
@@ -639,7 +706,7 @@ func init() {
 		r.Finish("fault scripts for ReferenceClockClient.MeasureClockOffsets inside synctest bubbles: per clock a completion time relative to the 1 ms virtual deadline (0, 1 ns, D-1, D, D+1, "+
 			"blocked until cancelled, random; clocks that honour or ignore cancellation; slow return after cancellation) and an outcome (value with unique id, or error); exhaustive over all patterns for small n, "+
 			"seeded random for n <= 16 incl. rounds without deadline; oracle on the virtual clock: return <= deadline, prefix = exactly the in-time successes each once, suffix untouched, slice not written after return, "+
-			"bubble ends (no goroutine left blocked) once all clocks returned, second round during a round refused, after it accepted; chains of 2-4 rounds back to back on one collector (the next round starts while clocks of the previous one that ignore cancellation still run), each round judged alone. distinct_nontrivial = distinct fault scripts (hashed)", 8)
+			"bubble ends (no goroutine left blocked) once all clocks returned, second round during a round refused (also when 2, 4 or 8 collections are started at the same instant from a spinning rendezvous: exactly one admitted), after it accepted; chains of 2-4 rounds back to back on one collector (the next round starts while clocks of the previous one that ignore cancellation still run), each round judged alone. distinct_nontrivial = distinct fault scripts (hashed)", 8)
 	})
 }
 
